@@ -89,6 +89,7 @@ type Model struct {
 	pktTag     uint64
 	pendK      []*PendK
 	bufEmit    map[uint64]*bufPkt
+	delFaulted map[RuleKey]bool // URRs whose removal the data plane was made to refuse (fault tag "delurr")
 	ups        []*UpReq
 	nDeliv     int
 	bufCap     int
@@ -109,7 +110,7 @@ type bufPkt struct {
 
 func newModel(s *Sim) *Model {
 	return &Model{s: s, nodes: map[string]*MNode{}, sess: map[uint64]*MSess{}, incs: map[uint64]int{},
-		rx: map[string]*MRx{}, bufEmit: map[uint64]*bufPkt{}}
+		rx: map[string]*MRx{}, bufEmit: map[uint64]*bufPkt{}, delFaulted: map[RuleKey]bool{}}
 }
 
 func (m *Model) nextPktTag() uint64 { m.pktTag++; return m.pktTag }
